@@ -1,4 +1,5 @@
 import copy
+from collections.abc import Callable
 from pathlib import Path
 from threading import RLock
 from typing import Any, Protocol, override
@@ -90,7 +91,13 @@ class UnwrappedContextManager[T: nn.Module]:
     optionally enabling/disabling inference mode.
     """
 
-    def __init__(self, model: T, lock: RLock, inference_mode: bool) -> None:
+    def __init__(
+        self,
+        model: T,
+        lock: RLock,
+        inference_mode: bool,
+        resolve: Callable[[], T] | None = None,
+    ) -> None:
         """Initialize the context manager.
 
         Args:
@@ -99,10 +106,16 @@ class UnwrappedContextManager[T: nn.Module]:
             inference_mode: If True, torch.inference_mode will be enabled
                 during the context, disabling gradient computation. If False,
                 gradients will be computed normally.
+            resolve: If given, it is called when the context is entered, after
+                the lock has been acquired, and the model it returns is the
+                one provided. The model held by a TorchInferenceModel may be
+                swapped by a synchronization between the creation of this
+                context manager and entering it.
         """
         self._model = model
         self._lock = lock
         self._inference_mode = inference_mode
+        self._resolve = resolve
 
     def __enter__(self) -> T:
         """Enter the context and return the model.
@@ -116,6 +129,10 @@ class UnwrappedContextManager[T: nn.Module]:
         self._torch_inference_mode = torch.inference_mode(self._inference_mode)
         self._torch_inference_mode.__enter__()
         self._lock.acquire()
+        if self._resolve is not None:
+            # Must be resolved while holding the lock: the model captured at
+            # creation may since have become the one the training thread updates.
+            self._model = self._resolve()
         return self._model
 
     def __exit__(self, exc_type: Any, exc_value: Any, traceback: Any) -> None:
@@ -225,7 +242,9 @@ class TorchInferenceModel[T: nn.Module](InferenceModel):
             for the duration of the context. Avoid holding the context for
             extended periods to prevent blocking other threads.
         """
-        return UnwrappedContextManager(self._raw_model, self._lock, inference_mode)
+        return UnwrappedContextManager(
+            self._raw_model, self._lock, inference_mode, resolve=lambda: self._model
+        )
 
 
 class TorchTrainingModel[T: nn.Module](TrainingModel[TorchInferenceModel[T]]):
